@@ -570,6 +570,7 @@ def backport_map(repo: Repo) -> RuleRun:
         mesh.set("block_list", bl)
         for nm in ("edge_list", "patch_list", "face_list", "geometry_list", "vertex_list"):
             mesh.set(nm, Obj(nm))
+        mesh.get("vertex_list").set("vertices", [])
 
         # the assembled state is produced by the repository's own assemble() (vertices: one fresh object per corner)
         def asm_hook(ev, call: ast.Call, name, bl=bl):
